@@ -445,6 +445,17 @@ func coderFree(r *Run, iters int) {
 			length = 2 * (1 + t.Draw(31, "tiny-len"))
 			g = 2 + t.Draw(15, "many-g")
 		}
+		manyMissing := false
+		if t.Bool(1, 8, "many-missing") {
+			// more than 64 data shards to reconstruct at once (the matrix
+			// that has to be inverted is then large enough for a coder to
+			// want to parallelise the inversion itself)
+			d = 80 + t.Draw(200, "mm-d")
+			p = 65 + t.Draw(100, "mm-p")
+			length = 2 * (1 + t.Draw(32, "mm-len"))
+			g = 2 + t.Draw(7, "mm-g")
+			manyMissing = true
+		}
 		var c, c1 rsec16.Coder
 		if kind == 0 {
 			c, _ = rsec16.NewCoderCauchy(d, p, g)
@@ -465,11 +476,27 @@ func coderFree(r *Run, iters int) {
 		}
 		dm := cloneShards(data)
 		k := t.Draw(min(d, p)+1, "missing")
+		if manyMissing {
+			k = 65 + t.Draw(min(d, p)-64, "mm-missing")
+			r.Probe("reconstruct->64-missing-shards")
+		}
 		for i := 0; i < k; i++ {
 			dm[i] = nil
 		}
-		vs, pan = r.coderOp("reconstruct-free", SchedSpec{Mode: sched.Jitter}, func() { c.ReconstructData(dm, cloneShards(want)) })
+		ds := cloneShards(dm)
+		errS := c1.ReconstructData(ds, cloneShards(want))
+		var errG error
+		vs, pan = r.coderOp("reconstruct-free", SchedSpec{Mode: sched.Jitter}, func() { errG = c.ReconstructData(dm, cloneShards(want)) })
 		r.reportSched("ReconstructData (free-running)", vs, pan)
+		if (errS == nil) != (errG == nil) {
+			r.Violate("bytes-differ-from-single", "free-running ReconstructData(kind=%d d=%d p=%d len=%d g=%d missing=%d): error %v, with one goroutine %v", kind, d, p, length, g, k, errG, errS)
+		}
+		for i := range ds {
+			if errS == nil && (dm[i] == nil || !bytes.Equal(dm[i], ds[i])) {
+				r.Violate("bytes-differ-from-single", "free-running ReconstructData(kind=%d d=%d p=%d len=%d g=%d missing=%d): data shard %d differs from the single-goroutine result", kind, d, p, length, g, k, i)
+				break
+			}
+		}
 	}
 	r.Class = "free"
 }
@@ -524,6 +551,39 @@ func coderFreeLong(r *Run) {
 				break
 			}
 		}
+	}
+	// ... and reconstructions of more than 64 data shards at once with
+	// short shards (the inversion of a large matrix is the heavy part)
+	for it := 0; it < 6; it++ {
+		kind := t.Draw(2, "mm-coder")
+		d := 80 + t.Draw(200, "mm-d")
+		p := 65 + t.Draw(100, "mm-p")
+		length := 2 * (1 + t.Draw(32, "mm-len"))
+		g := 2 + t.Draw(7, "mm-g")
+		c := mk0(r, kind, d, p, g)
+		c1 := mk0(r, kind, d, p, 1)
+		data := genShards(r, d, length)
+		parity := c1.GenerateParity(data)
+		k := 65 + t.Draw(min(d, p)-64, "mm-missing")
+		dm := cloneShards(data)
+		for _, i := range drawPerm(r, d)[:k] {
+			dm[i] = nil
+		}
+		ds := cloneShards(dm)
+		errS := c1.ReconstructData(ds, cloneShards(parity))
+		var errG error
+		vs, pan := r.coderOp("reconstruct-free-many", SchedSpec{Mode: sched.Record}, func() { errG = c.ReconstructData(dm, cloneShards(parity)) })
+		r.reportSched("ReconstructData (free-running, many missing shards)", vs, pan)
+		if (errS == nil) != (errG == nil) {
+			r.Violate("bytes-differ-from-single", "free-running ReconstructData(kind=%d d=%d p=%d len=%d g=%d missing=%d): error %v, with one goroutine %v", kind, d, p, length, g, k, errG, errS)
+		}
+		for i := range ds {
+			if errS == nil && (dm[i] == nil || !bytes.Equal(dm[i], ds[i])) {
+				r.Violate("bytes-differ-from-single", "free-running ReconstructData(kind=%d d=%d p=%d len=%d g=%d missing=%d): data shard %d differs from the single-goroutine result", kind, d, p, length, g, k, i)
+				break
+			}
+		}
+		r.Probe("reconstruct->64-missing-shards")
 	}
 	r.Probe("free-running-long-shards")
 	r.Class = fmt.Sprintf("free-long gomaxprocs=%d", runtime.GOMAXPROCS(0))
